@@ -139,3 +139,81 @@ func verifHarness_C17_fallbackOption() {
 	vAssert(inner.calls == 1, "fallback-used-once")
 	vReach()
 }
+
+// vPartsClient answers Partitions / WritablePartitions from fixed lists.
+type vPartsClient struct {
+	vFakeClient
+	all, writable []int32
+	askedAll      int
+	askedWritable int
+}
+
+func (c *vPartsClient) Partitions(topic string) ([]int32, error) {
+	c.askedAll++
+	return c.all, nil
+}
+func (c *vPartsClient) WritablePartitions(topic string) ([]int32, error) {
+	c.askedWritable++
+	return c.writable, nil
+}
+
+type vChoicePartitioner struct {
+	choice      int32
+	err         error
+	consistent  bool
+	offered     int32
+}
+
+func (p *vChoicePartitioner) Partition(m *ProducerMessage, n int32) (int32, error) {
+	p.offered = n
+	return p.choice, p.err
+}
+func (p *vChoicePartitioner) RequiresConsistency() bool { return p.consistent }
+
+// C17: the producer honours the partitioner's choice: consistency-requiring messages are
+// offered all partitions, the others only writable ones; the message goes to partitions[choice];
+// an out-of-range choice, a partitioner error or an empty list fail the message.
+func verifHarness_C17_partitionMessage() {
+	conf := NewConfig()
+	cl := vNewCluster(conf, 1, 1, 0)
+	lists := [][]int32{{}, {4}, {4, 7}, {4, 7, 9}}
+	all := lists[vChoose("allPartitions", 4)]
+	var writable []int32
+	for _, p := range all {
+		if vChoose("hasLeader", 2) == 1 {
+			writable = append(writable, p)
+		}
+	}
+	client := &vPartsClient{vFakeClient: vFakeClient{conf: conf, cl: cl}, all: all, writable: writable}
+	part := &vChoicePartitioner{choice: vInt32("choice"), consistent: vChoose("requiresConsistency", 2) == 1}
+	if vChoose("partitionerFails", 2) == 1 {
+		part.err = errVConn
+	}
+	tp := &topicProducer{parent: &asyncProducer{client: client, conf: conf}, topic: "t", breaker: vBreaker(), partitioner: part}
+	msg := &ProducerMessage{Topic: "t", Key: StringEncoder("k"), Partition: -5}
+	err := tp.partitionMessage(msg)
+	offeredList := writable
+	if part.consistent {
+		offeredList = all
+		vAssert(client.askedAll == 1 && client.askedWritable == 0, "consistent-messages-are-offered-all-partitions")
+	} else {
+		vAssert(client.askedAll == 0 && client.askedWritable == 1, "other-messages-are-offered-writable-partitions")
+	}
+	n := int32(len(offeredList))
+	switch {
+	case n == 0:
+		vAssert(err == ErrLeaderNotAvailable, "nothing-available-is-an-error")
+	case part.err != nil:
+		vAssert(err == part.err, "partitioner-error-returned")
+	case part.choice < 0 || part.choice >= n:
+		vAssert(err == ErrInvalidPartition, "out-of-range-choice-rejected")
+	default:
+		vAssert(err == nil && part.offered == n, "count-offered-matches-the-list")
+		vAssert(msg.Partition == offeredList[part.choice], "message-goes-to-the-chosen-partition-id")
+	}
+	if err != nil {
+		vAssert(msg.Partition == -5, "failed-message-not-assigned-anywhere")
+	}
+	vCover("out-of-range", n > 0 && part.err == nil && part.choice >= n)
+	vReach()
+}
